@@ -140,7 +140,7 @@ def Store.getVec (s : Store) (i : Nat) : Option VecObj :=
 inductive VRes
   | vec (v : VecObj)
   | rows (l : List VecObj)         -- a new SparseArray of new rows
-  deriving Repr, Inhabited
+  deriving Repr, Inhabited, DecidableEq
 
 def arithOf : BinOp → Option Arith
   | .add => some .add | .sub => some .sub | .mul => some .mul | .truediv => some .truediv
